@@ -67,6 +67,24 @@ Depths(p, d) == IF p = <<>> THEN <<>>
 Inside(n) == LET ds == Depths(n, 0) IN /\ Len(ds) >= 1
                                        /\ \A i \in 1..Len(ds) : ds[i] >= (IF i = Len(ds) THEN 1 ELSE 0)
 
+(* Names that are NOT ordinary: a service that builds an object name from     *)
+(* request text may hand the bucket anything.  The file-system backend joins *)
+(* the name to the bucket directory and resolves it lexically: an empty      *)
+(* component (a leading or doubled slash) and "." stay where they are, ".."  *)
+(* goes up one level (not above the file-system root), anything else goes    *)
+(* down.  `base` is the bucket directory (components from the root).  The    *)
+(* clause "every object name the services construct resolves inside its      *)
+(* bucket's directory" is ResolvesInside(bucket directory, name).            *)
+RECURSIVE Resolve(_, _)
+Resolve(p, st) == IF p = <<>> THEN st
+                  ELSE LET c == Head(p) IN
+                       Resolve(Tail(p), IF c = <<>> \/ c = <<".">> THEN st
+                                        ELSE IF c = <<".", ".">> THEN (IF st = <<>> THEN st ELSE SubSeq(st, 1, Len(st) - 1))
+                                        ELSE Append(st, c))
+ResolvesInside(base, n) == LET r == Resolve(base \o n, <<>>) IN
+                             /\ Len(r) > Len(base)
+                             /\ SubSeq(r, 1, Len(base)) = base
+
 Put(f, k, v) == [x \in (DOMAIN f) \cup {k} |-> IF x = k THEN v ELSE f[x]]
 Stored(b) == DOMAIN objs[b]
 
